@@ -132,8 +132,34 @@ func (f *fakeWS) Close() error {
 func (f *fakeWS) Subprotocol() string                                          { return "" }
 func (f *fakeWS) LocalAddr() net.Addr                                          { return &net.TCPAddr{} }
 func (f *fakeWS) RemoteAddr() net.Addr                                         { return &net.TCPAddr{} }
-func (f *fakeWS) WriteControl(int, []byte, time.Time) error                    { return nil }
-func (f *fakeWS) NextWriter(int) (io.WriteCloser, error)                       { return nil, errors.New("unsupported") }
+// NextWriter behaves like gorilla's message writer: the data is buffered and the (last fragment of
+// the) message goes to the network in Close, which is where a write error surfaces.
+func (f *fakeWS) NextWriter(mt int) (io.WriteCloser, error) { return &fakeMsgWriter{f: f, mt: mt}, nil }
+
+type fakeMsgWriter struct {
+	f    *fakeWS
+	mt   int
+	buf  []byte
+	done bool
+}
+
+func (w *fakeMsgWriter) Write(p []byte) (int, error) {
+	if w.done {
+		return 0, errors.New("websocket: write closed")
+	}
+	w.buf = append(w.buf, p...)
+	return len(p), nil
+}
+
+func (w *fakeMsgWriter) Close() error {
+	if w.done {
+		return nil
+	}
+	w.done = true
+	return w.f.WriteMessage(w.mt, w.buf)
+}
+
+func (f *fakeWS) WriteControl(mt int, data []byte, _ time.Time) error { return f.WriteMessage(mt, data) }
 func (f *fakeWS) WritePreparedMessage(*websocket.PreparedMessage) error        { return nil }
 func (f *fakeWS) SetWriteDeadline(time.Time) error                             { return nil }
 func (f *fakeWS) NextReader() (int, io.Reader, error)                          { return 0, nil, errors.New("unsupported") }
@@ -366,8 +392,8 @@ func genWsOp(r *Rng) string {
 		return fmt.Sprintf("LEND(%s)", []string{"err", "abn", "away", "norm"}[r.Intn(4)])
 	case 5, 6:
 		sz := 1 + r.Intn(40)
-		if r.Chance(15) {
-			sz = 5000
+		if r.Chance(20) {
+			sz = []int{125, 126, 4095, 4096, 4097, 5000, 65535, 65536, 70000}[r.Intn(9)]
 		}
 		return fmt.Sprintf("RAW(%s;%s)", hx(r.Bytes(sz)), []string{"-", "-", "-", "f"}[r.Intn(4)])
 	default:
